@@ -436,6 +436,12 @@ struct Lab {
         v.push_back(decl_item<P, VL, VBase>("decl<VL,VBase>"));
         v.push_back(decl_item<P, VR, VBase>("decl<VR,VBase>"));
         v.push_back(decl_item<P, VD, VL, VR>("decl<VD,VL,VR>"));
+        // direct bases spread over several statements, base lists not nested
+        v.push_back(decl_item<P, RoboDog, Dog>("decl<RoboDog,Dog>"));
+        v.push_back(decl_item<P, RoboDog, Property>("decl<RoboDog,Property>"));
+        v.push_back(decl_item<P, VD, VL>("decl<VD,VL>"));
+        v.push_back(decl_item<P, VD, VR>("decl<VD,VR>"));
+        v.push_back(use_item<P, Animal, Bulldog>("use<Animal,Bulldog>"));
         // methods
         v.push_back(method_item<kick>("kick", 0, {cAnimal}));
         v.push_back(method_item<meet>("meet", 1, {cAnimal, cAnimal}));
@@ -1150,7 +1156,8 @@ J tw_gen(std::uint64_t seed, int tier, long) {
     static const char* pols[] = {"tw_dbg", "tw_rel", "tw_ind"};
     c.set("policy", pols[r.below(3)]);
     // which part of the menu this run may use (swarm)
-    int nitems = 49;
+    constexpr int CI_END = 25, M_END = 32; // class items, then methods, then definitions
+    int nitems = 54;
     std::vector<int> enabled;
     double p = 0.35 + 0.5 * (r.below(100) / 100.0);
     for (int k = 0; k < nitems; ++k)
@@ -1169,19 +1176,22 @@ J tw_gen(std::uint64_t seed, int tier, long) {
         // definitions over the registered classes, in a shuffled order
         static const std::vector<std::vector<int>> main_pres = {
             {0}, {1, 2, 3, 4, 5}, {6, 7, 8, 10, 11, 12, 13}, {6, 7, 9, 10, 11, 12, 14},
-            {0, 7, 13}, {1, 2, 3}, {6, 7, 10}, {1, 3, 4, 5}, {6, 7, 8, 11, 12, 14}, {0, 1, 2, 5}};
-        static const std::vector<std::vector<int>> virt_pres = {{15}, {16, 17, 18, 19}, {15, 19}, {}};
+            {0, 7, 13}, {1, 2, 3}, {6, 7, 10}, {1, 3, 4, 5}, {6, 7, 8, 11, 12, 14}, {0, 1, 2, 5},
+            {6, 7, 8, 10, 11, 12, 20, 21}, {6, 7, 11, 21, 20}, {1, 24, 2, 3}, {6, 7, 24, 2},
+            {1, 2, 4, 20, 21}};
+        static const std::vector<std::vector<int>> virt_pres = {
+            {15}, {16, 17, 18, 19}, {15, 19}, {}, {16, 17, 18, 22, 23}, {16, 18, 17, 23, 22}};
         std::vector<int> first = main_pres[r.below(main_pres.size())];
         for (int k : virt_pres[r.below(virt_pres.size())])
             first.push_back(k);
-        for (int k = 20; k < 27; ++k)
+        for (int k = CI_END; k < M_END; ++k)
             if (r.chance(0.7))
                 first.push_back(k);
         r.shuffle(first);
         for (int k : first)
             push("load", k);
         std::vector<int> defs;
-        for (int k = 27; k < nitems; ++k)
+        for (int k = M_END; k < nitems; ++k)
             if (r.chance(0.6))
                 defs.push_back(k);
         r.shuffle(defs);
@@ -1192,7 +1202,7 @@ J tw_gen(std::uint64_t seed, int tier, long) {
         // definitions whose classes are not registered keep the registry
         // ill-formed: take some out again and retry
         for (int t = 0; t < 6; ++t) {
-            push("unload", 27 + (int)r.below(nitems - 27));
+            push("unload", M_END + (int)r.below(nitems - M_END));
             push("update", -1);
             push("check", -1);
         }
